@@ -158,7 +158,7 @@ func rowsSig(col proto.Column) string {
 
 // C15 — the pure-Go build and the default build of the codecs behave identically.
 func C15(c *vk.Ctx) {
-	c.Rule("each of the 35 column codecs that exist in two build variants (33 generated + Bool + UUID) x inputs {all 256 values for 1-byte elements, all 65536 values for 2-byte elements, for wider elements 1..5 rows of the patterns zero / all-ones / counter / high bit / low byte and a 7-row filler, 0 rows, and 65535 / 65536 / 65537 rows and one row more than 1 MiB of column data for every codec} x target {fresh, reset after use} x DecodeColumn of the whole input and of EVERY truncation of it x the same column read twice in a row from one reader (plain; as two LZ4 frames; as two None frames; as one column spread over two ZSTD frames followed by a third frame) x EncodeColumn into an empty buffer and into buffers pre-filled with 1..9 bytes x WriteColumn+Flush (after buffered bytes; on a writer whose buffer started non-empty, twice with a buffered byte in between). Each build checks encode(decode(x)) = x and prefix preservation itself; the driver then compares the two builds' transcripts (decoded row values, produced bytes, error classes) line by line. Bool is fed only the bytes both builds accept (0/1); other bytes are decoded in each build only to show that nothing panics. distinct_nontrivial = transcript lines.")
+	c.Rule("each of the 35 column codecs that exist in two build variants (33 generated + Bool + UUID) x inputs {all 256 values for 1-byte elements, all 65536 values for 2-byte elements, for wider elements 1..5 rows of the patterns zero / all-ones / counter / high bit / low byte and a 7-row filler, 0 rows, and 65535 / 65536 / 65537 rows and one row more than 1 MiB of column data for every codec} x target {fresh, reset after use} x DecodeColumn of the whole input and of EVERY truncation of it (inputs of more than 64 bytes: the first and last 16 cuts and the cuts at and next to multiples of 4096, 65536 and every multiple of 1 MiB) x the same column read twice in a row from one reader (plain; as two LZ4 frames; as two None frames; as one column spread over two ZSTD frames followed by a third frame) x EncodeColumn into an empty buffer and into buffers pre-filled with 1..9 bytes x WriteColumn+Flush (after buffered bytes; on a writer whose buffer started non-empty, twice with a buffered byte in between). Each build checks encode(decode(x)) = x and prefix preservation itself; the driver then compares the two builds' transcripts (decoded row values, produced bytes, error classes) line by line. Bool is fed only the bytes both builds accept (0/1); other bytes are decoded in each build only to show that nothing panics. distinct_nontrivial = transcript lines.")
 	for ci, cd := range codecs15() {
 		if c.Only == "" && !c.Mine(int64(ci)) {
 			continue
@@ -261,6 +261,54 @@ func C15(c *vk.Ctx) {
 				if msg != "" {
 					c.Violation("C15/panic/"+cd.name+"/"+fn, id, msg, nil)
 					c.T(cd.name+"|"+name+"/"+target, "panic")
+				}
+			}
+			// long inputs: truncations at both ends and at and next to the sizes readers work in
+			// (4096-byte buffer, 64 KiB, every multiple of 1 MiB)
+			if len(in) > 64 {
+				seen := map[int]bool{}
+				var cuts []int
+				add := func(k int) {
+					if k >= 0 && k < len(in) && !seen[k] {
+						seen[k] = true
+						cuts = append(cuts, k)
+					}
+				}
+				for k := 0; k < 16; k++ {
+					add(k)
+					add(len(in) - 1 - k)
+				}
+				for _, step := range []int{4096, 1 << 16} {
+					for m := 1; m <= 3; m++ {
+						for d := -1; d <= 1; d++ {
+							add(m*step + d)
+							add(len(in) - m*step + d)
+						}
+					}
+				}
+				for m := 1 << 20; m < len(in)+2; m += 1 << 20 {
+					for d := -1; d <= 1; d++ {
+						add(m + d)
+					}
+				}
+				for _, k := range cuts {
+					id := fmt.Sprintf("%s/%s/cut=%d", cd.name, name, k)
+					if c.Only != "" && c.Only != id {
+						continue
+					}
+					msg, fn := vk.Recover(func() {
+						col := cd.mk()
+						err := col.DecodeColumn(proto.NewReader(bytes.NewReader(in[:k])), rows)
+						if err == nil {
+							c.Violation("C15/truncation-accepted/"+cd.name, id, "decoding a truncated column succeeds", nil)
+						}
+						c.T(cd.name+"|"+name+fmt.Sprintf("/cut=%d", k), errClass15(err))
+						c.Eval("truncations", 1)
+						c.DistinctN(1)
+					})
+					if msg != "" {
+						c.Violation("C15/panic/"+cd.name+"/"+fn, id, msg, nil)
+					}
 				}
 			}
 			// every truncation (error classes must agree between the builds)
